@@ -1225,7 +1225,10 @@ def run(ctx):
                 "functions (update_policy_elem_bpf_map, update_redirect_policy, update_skip_process_map, remove_audit_map_entry, lookup_audit) were "
                 "recorded to issue when run IN SEQUENCE on one BpfObject freshly loaded by from_ebpf_file per script (start-up installer and run-time "
                 "updater mixed on the same endpoints); a connect must be diverted iff its destination is in the policy the agent INTENDS at that time; "
-                "bursts of 17..129 threads in flight; "
+                "bursts of 17..129 threads in flight; `faults` scripts (one map helper call of a hook fails with -EBUSY/-ENOMEM/-E2BIG) and `sched` "
+                "scripts (another caller's hook between two map helper calls of this one, preallocated element reuse) are run by the implementation "
+                "only (the model's hook runs are atomic and never fail) and judged by the property: diverted-or-refused, records state the caller "
+                "that made the connection; "
                 "a rolling digest absorbs the outputs and the dump of all four maps after EVERY line and is compared per script (first differing line "
                 "located on mismatch); 1-6 processes x 1-3 threads, uid/gid independently from {0,1000,65534,2^32-1}, the three protected endpoints and "
                 "near misses (UDP, other port, byte-swapped port, other ip, the proxy itself, random), uniform interleavings with agent operations in "
